@@ -365,9 +365,16 @@ package sm2
 //@   (requires key (wfpub a))
 //@   (requires range (and (<= 0 (bigval (field a X))) (< (bigval (field a X)) 115792089237316195423570985008687907853269984665640564039457584007913129639936)))
 //@   (ensures len (= (len result) 33)))
+// (the verdict is recorded in ghost state for callers in other packages: which message, signature and key coordinates)
+// (ghosts sm2.vok / vmsg / vsig / vx / vy are declared in /verif/specs/extern.contracts so that other packages can name them)
 //@ (func "(*PublicKey).Verify" sweep
 //@   (requires init (and (sm2init) (consts)))
-//@   (requires key (wfpub pub)))
+//@   (requires key (wfpub pub))
+//@   (ghost-set sm2.vok (ite result #x01 #x00))
+//@   (ghost-set sm2.vmsg (obj msg))
+//@   (ghost-set sm2.vsig (obj sig))
+//@   (ghost-set sm2.vx (old (obj (field pub X))))
+//@   (ghost-set sm2.vy (old (obj (field pub Y)))))
 //@ (func DecryptAsn1 sweep
 //@   (requires key (wfpriv pub))
 //@   (requires size (bvslt (len data) #x0000001000000000))
